@@ -74,7 +74,9 @@ fn main() {
                 if let Ok(t) = std::fs::read_to_string(f) {
                     pest::verif::reset_calls();
                     let ok = pest_meta::parser::parse(pest_meta::parser::Rule::grammar_rules, &t).is_ok();
-                    println!("{} {} {} {}", t.len(), pest::verif::calls(), ok, f);
+                    pest_meta::validator::verif::reset(usize::MAX);
+                    let _ = pest_meta::parse_and_optimize(&t);
+                    println!("{} {} {} {} {}", t.len(), pest::verif::calls(), ok, f, pest_meta::validator::verif::steps());
                 }
             }
         }
